@@ -34,7 +34,7 @@ theorem render_ne_nil (t : TagS) (ht : t.ok) : t.render ≠ [] := by
   simp at this
 
 section
-variable (ds de ds' de' : List Char) (ρ : List Char → List Char) (N : List Char → Prop)
+variable (ds de ds' de' : List Char) (ρ : List Char → List Char) (N : List Char → Prop) (R : Token → Token → Prop)
 
 /-- the same text, or the same grammar tag with its name rewritten, under the respective delimiters -/
 def TokN (t u : Token) : Prop :=
@@ -63,6 +63,9 @@ theorem elparse_n (hρ : RenOK ρ N) (hds : ds ≠ []) (hde : de ≠ []) (hds' :
     rw [← hel]
     exact hn
 
+/-- corresponding tokens, with any further relation `R` carried along (e.g. equal line numbers) -/
+def TokNR (t u : Token) : Prop := TokN ds de ds' de' ρ N t u ∧ R t u
+
 mutual
 /-- forests of the same shape; corresponding elements differ in their names only, and their names are in `N` -/
 def partsN : List Part → List Part → Prop
@@ -71,15 +74,15 @@ def partsN : List Part → List Part → Prop
   | [], _ :: _ => False
   | _ :: _, [] => False
 def partN : Part → Part → Prop
-  | .text t, .text u => TokN ds de ds' de' ρ N t u
+  | .text t, .text u => TokNR ds de ds' de' ρ N R t u
   | .element el st en ch, .element el' st' en' ch' =>
-    el' = renEl ρ el ∧ N el.name ∧ TokN ds de ds' de' ρ N st st' ∧ TokN ds de ds' de' ρ N en en' ∧ partsN ch ch'
+    el' = renEl ρ el ∧ N el.name ∧ TokNR ds de ds' de' ρ N R st st' ∧ TokNR ds de ds' de' ρ N R en en' ∧ partsN ch ch'
   | .text _, .element _ _ _ _ => False
   | .element _ _ _ _, .text _ => False
 end
 
-theorem partsN_append : ∀ (a b c d : List Part), partsN ds de ds' de' ρ N a b → partsN ds de ds' de' ρ N c d →
-    partsN ds de ds' de' ρ N (a ++ c) (b ++ d)
+theorem partsN_append : ∀ (a b c d : List Part), partsN ds de ds' de' ρ N R a b → partsN ds de ds' de' ρ N R c d →
+    partsN ds de ds' de' ρ N R (a ++ c) (b ++ d)
   | [], [], _, _, _, h2 => by simpa using h2
   | [], _ :: _, _, _, h1, _ => absurd h1 (by simp [partsN])
   | _ :: _, [], _, _, h1, _ => absurd h1 (by simp [partsN])
@@ -90,12 +93,12 @@ theorem partsN_append : ∀ (a b c d : List Part), partsN ds de ds' de' ρ N a b
 
 def TokNs : List Token → List Token → Prop
   | [], [] => True
-  | t :: ts, u :: us => TokN ds de ds' de' ρ N t u ∧ TokNs ts us
+  | t :: ts, u :: us => TokNR ds de ds' de' ρ N R t u ∧ TokNs ts us
   | [], _ :: _ => False
   | _ :: _, [] => False
 
-theorem TokNs_append : ∀ (a b c d : List Token), TokNs ds de ds' de' ρ N a b → TokNs ds de ds' de' ρ N c d →
-    TokNs ds de ds' de' ρ N (a ++ c) (b ++ d)
+theorem TokNs_append : ∀ (a b c d : List Token), TokNs ds de ds' de' ρ N R a b → TokNs ds de ds' de' ρ N R c d →
+    TokNs ds de ds' de' ρ N R (a ++ c) (b ++ d)
   | [], [], _, _, _, h2 => by simpa using h2
   | [], _ :: _, _, _, h1, _ => absurd h1 (by simp [TokNs])
   | _ :: _, [], _, _, h1, _ => absurd h1 (by simp [TokNs])
@@ -105,17 +108,17 @@ theorem TokNs_append : ∀ (a b c d : List Token), TokNs ds de ds' de' ρ N a b 
     exact ⟨h1.1, TokNs_append ps qs c d h1.2 h2⟩
 
 mutual
-theorem flatten_n : ∀ (a b : List Part), partsN ds de ds' de' ρ N a b →
-    TokNs ds de ds' de' ρ N (flattenParts a) (flattenParts b)
+theorem flatten_n : ∀ (a b : List Part), partsN ds de ds' de' ρ N R a b →
+    TokNs ds de ds' de' ρ N R (flattenParts a) (flattenParts b)
   | [], [], _ => trivial
   | [], _ :: _, h => absurd h (by simp [partsN])
   | _ :: _, [], h => absurd h (by simp [partsN])
   | p :: ps, q :: qs, h => by
     simp only [partsN] at h
     simp only [flattenParts]
-    exact TokNs_append ds de ds' de' ρ N _ _ _ _ (flattenPart_n p q h.1) (flatten_n ps qs h.2)
-theorem flattenPart_n : ∀ (p q : Part), partN ds de ds' de' ρ N p q →
-    TokNs ds de ds' de' ρ N (flattenPart p) (flattenPart q)
+    exact TokNs_append ds de ds' de' ρ N R _ _ _ _ (flattenPart_n p q h.1) (flatten_n ps qs h.2)
+theorem flattenPart_n : ∀ (p q : Part), partN ds de ds' de' ρ N R p q →
+    TokNs ds de ds' de' ρ N R (flattenPart p) (flattenPart q)
   | .text t, .text u, h => by simp only [partN] at h; exact ⟨h, trivial⟩
   | .text _, .element _ _ _ _, h => absurd h (by simp [partN])
   | .element _ _ _ _, .text _, h => absurd h (by simp [partN])
@@ -123,25 +126,25 @@ theorem flattenPart_n : ∀ (p q : Part), partN ds de ds' de' ρ N p q →
     simp only [partN] at h
     obtain ⟨_, _, h2, h3, h4⟩ := h
     simp only [flattenPart]
-    have := TokNs_append ds de ds' de' ρ N _ _ [en] [en'] (flatten_n ch ch' h4) ⟨h3, trivial⟩
+    have := TokNs_append ds de ds' de' ρ N R _ _ [en] [en'] (flatten_n ch ch' h4) ⟨h3, trivial⟩
     exact ⟨h2, this⟩
 end
 
 mutual
 /-- pruning with two predicates that agree along the renaming -/
 theorem prune_n (P P' : Element → Bool) (hP : ∀ el, N el.name → P' (renEl ρ el) = P el) :
-    ∀ (a b : List Part), partsN ds de ds' de' ρ N a b →
-    partsN ds de ds' de' ρ N (pruneParts P a) (pruneParts P' b)
+    ∀ (a b : List Part), partsN ds de ds' de' ρ N R a b →
+    partsN ds de ds' de' ρ N R (pruneParts P a) (pruneParts P' b)
   | [], [], _ => trivial
   | [], _ :: _, h => absurd h (by simp [partsN])
   | _ :: _, [], h => absurd h (by simp [partsN])
   | p :: ps, q :: qs, h => by
     simp only [partsN] at h
     simp only [pruneParts]
-    exact partsN_append ds de ds' de' ρ N _ _ _ _ (prunePart_n P P' hP p q h.1) (prune_n P P' hP ps qs h.2)
+    exact partsN_append ds de ds' de' ρ N R _ _ _ _ (prunePart_n P P' hP p q h.1) (prune_n P P' hP ps qs h.2)
 theorem prunePart_n (P P' : Element → Bool) (hP : ∀ el, N el.name → P' (renEl ρ el) = P el) :
-    ∀ (p q : Part), partN ds de ds' de' ρ N p q →
-    partsN ds de ds' de' ρ N (prunePart P p) (prunePart P' q)
+    ∀ (p q : Part), partN ds de ds' de' ρ N R p q →
+    partsN ds de ds' de' ρ N R (prunePart P p) (prunePart P' q)
   | .text t, .text u, h => by simp only [partN] at h; simp only [prunePart, partsN, partN]; exact ⟨h, trivial⟩
   | .text _, .element _ _ _ _, h => absurd h (by simp [partN])
   | .element _ _ _ _, .text _, h => absurd h (by simp [partN])
@@ -157,7 +160,7 @@ theorem prunePart_n (P P' : Element → Bool) (hP : ∀ el, N el.name → P' (re
 end
 
 mutual
-theorem elements_n : ∀ (a b : List Part), partsN ds de ds' de' ρ N a b →
+theorem elements_n : ∀ (a b : List Part), partsN ds de ds' de' ρ N R a b →
     (elementsOf b).map (·.1) = (elementsOf a).map (fun e => renEl ρ e.1)
   | [], [], _ => rfl
   | [], _ :: _, h => absurd h (by simp [partsN])
@@ -165,7 +168,7 @@ theorem elements_n : ∀ (a b : List Part), partsN ds de ds' de' ρ N a b →
   | p :: ps, q :: qs, h => by
     simp only [partsN] at h
     simp only [elementsOf, List.map_append, elementsPart_n p q h.1, elements_n ps qs h.2]
-theorem elementsPart_n : ∀ (p q : Part), partN ds de ds' de' ρ N p q →
+theorem elementsPart_n : ∀ (p q : Part), partN ds de ds' de' ρ N R p q →
     (elementsOfPart q).map (·.1) = (elementsOfPart p).map (fun e => renEl ρ e.1)
   | .text t, .text u, _ => by simp [elementsOfPart]
   | .text _, .element _ _ _ _, h => absurd h (by simp [partN])
@@ -179,7 +182,7 @@ end
 mutual
 /-- the seams, counted in surviving tokens, are at the same indices -/
 theorem seamIdx_n (P P' : Element → Bool) (hP : ∀ el, N el.name → P' (renEl ρ el) = P el) :
-    ∀ (a b : List Part) (n : Nat), partsN ds de ds' de' ρ N a b → seamIdxParts P a n = seamIdxParts P' b n
+    ∀ (a b : List Part) (n : Nat), partsN ds de ds' de' ρ N R a b → seamIdxParts P a n = seamIdxParts P' b n
   | [], [], _, _ => rfl
   | [], _ :: _, _, h => absurd h (by simp [partsN])
   | _ :: _, [], _, h => absurd h (by simp [partsN])
@@ -188,7 +191,7 @@ theorem seamIdx_n (P P' : Element → Bool) (hP : ∀ el, N el.name → P' (renE
     simp only [seamIdxParts]
     rw [seamIdxPart_n P P' hP p q n h.1, seamIdx_n P P' hP ps qs _ h.2]
 theorem seamIdxPart_n (P P' : Element → Bool) (hP : ∀ el, N el.name → P' (renEl ρ el) = P el) :
-    ∀ (p q : Part) (n : Nat), partN ds de ds' de' ρ N p q → seamIdxPart P p n = seamIdxPart P' q n
+    ∀ (p q : Part) (n : Nat), partN ds de ds' de' ρ N R p q → seamIdxPart P p n = seamIdxPart P' q n
   | .text _, .text _, _, _ => rfl
   | .text _, .element _ _ _ _, _, h => absurd h (by simp [partN])
   | .element _ _ _ _, .text _, _, h => absurd h (by simp [partN])
@@ -203,33 +206,33 @@ end
 /-! ### the stack machine along the renaming -/
 
 def FrameN (f g : Frame) : Prop :=
-  g.el = renEl ρ f.el ∧ N f.el.name ∧ TokN ds de ds' de' ρ N f.tok g.tok ∧ partsN ds de ds' de' ρ N f.parts g.parts
+  g.el = renEl ρ f.el ∧ N f.el.name ∧ TokNR ds de ds' de' ρ N R f.tok g.tok ∧ partsN ds de ds' de' ρ N R f.parts g.parts
 
 def StackN : List Frame → List Frame → Prop
   | [], [] => True
-  | f :: fs, g :: gs => FrameN ds de ds' de' ρ N f g ∧ StackN fs gs
+  | f :: fs, g :: gs => FrameN ds de ds' de' ρ N R f g ∧ StackN fs gs
   | [], _ :: _ => False
   | _ :: _, [] => False
 
 def StateN (s t : List Frame × List Part) : Prop :=
-  StackN ds de ds' de' ρ N s.1 t.1 ∧ partsN ds de ds' de' ρ N s.2 t.2
+  StackN ds de ds' de' ρ N R s.1 t.1 ∧ partsN ds de ds' de' ρ N R s.2 t.2
 
-theorem appendTo_n (S S' : List Frame) (r r' x x' : List Part) (hS : StackN ds de ds' de' ρ N S S')
-    (hr : partsN ds de ds' de' ρ N r r') (hx : partsN ds de ds' de' ρ N x x') :
-    StateN ds de ds' de' ρ N (appendTo S r x) (appendTo S' r' x') := by
+theorem appendTo_n (S S' : List Frame) (r r' x x' : List Part) (hS : StackN ds de ds' de' ρ N R S S')
+    (hr : partsN ds de ds' de' ρ N R r r') (hx : partsN ds de ds' de' ρ N R x x') :
+    StateN ds de ds' de' ρ N R (appendTo S r x) (appendTo S' r' x') := by
   cases S with
   | nil =>
     cases S' with
-    | nil => exact ⟨trivial, partsN_append ds de ds' de' ρ N _ _ _ _ hr hx⟩
+    | nil => exact ⟨trivial, partsN_append ds de ds' de' ρ N R _ _ _ _ hr hx⟩
     | cons g gs => exact absurd hS (by simp [StackN])
   | cons f fs =>
     cases S' with
     | nil => exact absurd hS (by simp [StackN])
     | cons g gs =>
       obtain ⟨⟨a1, a0, a2, a3⟩, hrest⟩ := hS
-      exact ⟨⟨⟨a1, a0, a2, partsN_append ds de ds' de' ρ N _ _ _ _ a3 hx⟩, hrest⟩, hr⟩
+      exact ⟨⟨⟨a1, a0, a2, partsN_append ds de ds' de' ρ N R _ _ _ _ a3 hx⟩, hrest⟩, hr⟩
 
-theorem stackN_any (hρ : RenOK ρ N) (x : List Char) (hx : N x) : ∀ (S S' : List Frame), StackN ds de ds' de' ρ N S S' →
+theorem stackN_any (hρ : RenOK ρ N) (x : List Char) (hx : N x) : ∀ (S S' : List Frame), StackN ds de ds' de' ρ N R S S' →
     S.any (fun f => f.el.name == x) = S'.any (fun f => f.el.name == ρ x)
   | [], [], _ => rfl
   | [], _ :: _, h => absurd h (by simp [StackN])
@@ -246,16 +249,16 @@ theorem stackN_any (hρ : RenOK ρ N) (x : List Char) (hx : N x) : ∀ (S S' : L
     simp only [List.any_cons, stackN_any hρ x hx fs gs hrest, hb]
 
 def OptN : Option (List Frame × List Part) → Option (List Frame × List Part) → Prop
-  | some a, some b => StateN ds de ds' de' ρ N a b
+  | some a, some b => StateN ds de ds' de' ρ N R a b
   | none, none => True
   | some _, none => False
   | none, some _ => False
 
 theorem closeFrame_n (hρ : RenOK ρ N) (name : List Char) (hname : N name) (c c' : Token)
-    (hc : TokN ds de ds' de' ρ N c c') :
-    ∀ (S S' : List Frame) (r r' h h' : List Part), StackN ds de ds' de' ρ N S S' → partsN ds de ds' de' ρ N r r' →
-    partsN ds de ds' de' ρ N h h' →
-    OptN ds de ds' de' ρ N (closeFrame name c S r h) (closeFrame (ρ name) c' S' r' h')
+    (hc : TokNR ds de ds' de' ρ N R c c') :
+    ∀ (S S' : List Frame) (r r' h h' : List Part), StackN ds de ds' de' ρ N R S S' → partsN ds de ds' de' ρ N R r r' →
+    partsN ds de ds' de' ρ N R h h' →
+    OptN ds de ds' de' ρ N R (closeFrame name c S r h) (closeFrame (ρ name) c' S' r' h')
   | [], [], _, _, _, _, _, _, _ => by simp [closeFrame, OptN]
   | [], _ :: _, _, _, _, _, hS, _, _ => absurd hS (by simp [StackN])
   | _ :: _, [], _, _, _, _, hS, _, _ => absurd hS (by simp [StackN])
@@ -268,38 +271,38 @@ theorem closeFrame_n (hρ : RenOK ρ N) (name : List Char) (hname : N name) (c c
     by_cases hc' : f.el.name = name
     · rw [if_pos hc', if_pos (hiff.mpr hc')]
       simp only [OptN]
-      apply appendTo_n ds de ds' de' ρ N fs gs r r' _ _ hrest hr
+      apply appendTo_n ds de ds' de' ρ N R fs gs r r' _ _ hrest hr
       simp only [partsN, partN]
-      exact ⟨⟨a1, a0, a2, hc, partsN_append ds de ds' de' ρ N _ _ _ _ a3 hh⟩, trivial⟩
+      exact ⟨⟨a1, a0, a2, hc, partsN_append ds de ds' de' ρ N R _ _ _ _ a3 hh⟩, trivial⟩
     · rw [if_neg hc', if_neg (fun h' => hc' (hiff.mp h'))]
       apply closeFrame_n hρ name hname c c' hc fs gs r r' _ _ hrest hr
       simp only [partsN, partN]
-      exact ⟨a2, partsN_append ds de ds' de' ρ N _ _ _ _ a3 hh⟩
+      exact ⟨a2, partsN_append ds de ds' de' ρ N R _ _ _ _ a3 hh⟩
 
 theorem stackStep_n (hρ : RenOK ρ N) (hds : ds ≠ []) (hde : de ≠ []) (hds' : ds' ≠ []) (hde' : de' ≠ [])
-    (st st' : List Frame × List Part) (t u : Token) (h : StateN ds de ds' de' ρ N st st')
-    (htu : TokN ds de ds' de' ρ N t u) :
-    StateN ds de ds' de' ρ N (stackStep ds de st t) (stackStep ds' de' st' u) := by
+    (st st' : List Frame × List Part) (t u : Token) (h : StateN ds de ds' de' ρ N R st st')
+    (htu : TokNR ds de ds' de' ρ N R t u) :
+    StateN ds de ds' de' ρ N R (stackStep ds de st t) (stackStep ds' de' st' u) := by
   obtain ⟨S, r⟩ := st
   obtain ⟨S', r'⟩ := st'
   obtain ⟨hS, hr⟩ := h
   simp only at hS hr
-  obtain ⟨hel', hN⟩ := elparse_n ds de ds' de' ρ N hρ hds hde hds' hde' t u htu
+  obtain ⟨hel', hN⟩ := elparse_n ds de ds' de' ρ N hρ hds hde hds' hde' t u htu.1
   simp only [stackStep, hel']
   cases hel : elparse ds de t with
   | none =>
     simp only [Option.map_none]
-    apply appendTo_n ds de ds' de' ρ N S S' r r' _ _ hS hr
+    apply appendTo_n ds de ds' de' ρ N R S S' r r' _ _ hS hr
     simp only [partsN, partN]
     exact ⟨htu, trivial⟩
   | some el =>
     have hn := hN el hel
     have hnt := hρ.closed _ hn
     simp only [Option.map_some, renEl]
-    rw [← hρ.trim _ hn, ← stackN_any ds de ds' de' ρ N hρ _ hnt S S' hS]
+    rw [← hρ.trim _ hn, ← stackN_any ds de ds' de' ρ N R hρ _ hnt S S' hS]
     simp only [hρ.head _ hn]
     split
-    · have := closeFrame_n ds de ds' de' ρ N hρ (trimSlashes el.name) hnt t u htu S S' r r' [] [] hS hr trivial
+    · have := closeFrame_n ds de ds' de' ρ N R hρ (trimSlashes el.name) hnt t u htu S S' r r' [] [] hS hr trivial
       revert this
       cases closeFrame (trimSlashes el.name) t S r [] <;> cases closeFrame (ρ (trimSlashes el.name)) u S' r' [] <;>
         simp only [OptN] <;> intro this
@@ -310,8 +313,8 @@ theorem stackStep_n (hρ : RenOK ρ N) (hds : ds ≠ []) (hde : de ≠ []) (hds'
     · exact ⟨⟨⟨rfl, hn, htu, trivial⟩, hS⟩, hr⟩
 
 theorem runM_n (hρ : RenOK ρ N) (hds : ds ≠ []) (hde : de ≠ []) (hds' : ds' ≠ []) (hde' : de' ≠ []) :
-    ∀ (T T' : List Token), TokNs ds de ds' de' ρ N T T' → ∀ (st st' : List Frame × List Part),
-    StateN ds de ds' de' ρ N st st' → StateN ds de ds' de' ρ N (runM ds de st T) (runM ds' de' st' T')
+    ∀ (T T' : List Token), TokNs ds de ds' de' ρ N R T T' → ∀ (st st' : List Frame × List Part),
+    StateN ds de ds' de' ρ N R st st' → StateN ds de ds' de' ρ N R (runM ds de st T) (runM ds' de' st' T')
   | [], [], _, st, st', h => h
   | [], _ :: _, h, _, _, _ => absurd h (by simp [TokNs])
   | _ :: _, [], h, _, _, _ => absurd h (by simp [TokNs])
@@ -320,12 +323,12 @@ theorem runM_n (hρ : RenOK ρ N) (hds : ds ≠ []) (hde : de ≠ []) (hds' : ds
     have e1 : runM ds de st (t :: ts) = runM ds de (stackStep ds de st t) ts := by simp [runM]
     have e2 : runM ds' de' st' (u :: us) = runM ds' de' (stackStep ds' de' st' u) us := by simp [runM]
     rw [e1, e2]
-    exact runM_n hρ hds hde hds' hde' ts us h.2 _ _ (stackStep_n ds de ds' de' ρ N hρ hds hde hds' hde' st st' t u hst h.1)
+    exact runM_n hρ hds hde hds' hde' ts us h.2 _ _ (stackStep_n ds de ds' de' ρ N R hρ hds hde hds' hde' st st' t u hst h.1)
 
-theorem finishStack_n : ∀ (S S' : List Frame) (h h' r r' : List Part), StackN ds de ds' de' ρ N S S' →
-    partsN ds de ds' de' ρ N h h' → partsN ds de ds' de' ρ N r r' →
-    partsN ds de ds' de' ρ N (finishStack S h r) (finishStack S' h' r')
-  | [], [], _, _, _, _, _, hh, hr => by simp only [finishStack]; exact partsN_append ds de ds' de' ρ N _ _ _ _ hr hh
+theorem finishStack_n : ∀ (S S' : List Frame) (h h' r r' : List Part), StackN ds de ds' de' ρ N R S S' →
+    partsN ds de ds' de' ρ N R h h' → partsN ds de ds' de' ρ N R r r' →
+    partsN ds de ds' de' ρ N R (finishStack S h r) (finishStack S' h' r')
+  | [], [], _, _, _, _, _, hh, hr => by simp only [finishStack]; exact partsN_append ds de ds' de' ρ N R _ _ _ _ hr hh
   | [], _ :: _, _, _, _, _, hS, _, _ => absurd hS (by simp [StackN])
   | _ :: _, [], _, _, _, _, hS, _, _ => absurd hS (by simp [StackN])
   | f :: fs, g :: gs, h, h', r, r', hS, hh, hr => by
@@ -333,20 +336,20 @@ theorem finishStack_n : ∀ (S S' : List Frame) (h h' r r' : List Part), StackN 
     simp only [finishStack]
     apply finishStack_n fs gs _ _ r r' hrest _ hr
     simp only [partsN, partN]
-    exact ⟨a2, partsN_append ds de ds' de' ρ N _ _ _ _ a3 hh⟩
+    exact ⟨a2, partsN_append ds de ds' de' ρ N R _ _ _ _ a3 hh⟩
 
 /-- the forests of corresponding token lists correspond -/
 theorem parse_n (hρ : RenOK ρ N) (hds : ds ≠ []) (hde : de ≠ []) (hds' : ds' ≠ []) (hde' : de' ≠ []) (T T' : List Token)
-    (h : TokNs ds de ds' de' ρ N T T') : partsN ds de ds' de' ρ N (parse ds de T) (parse ds' de' T') := by
+    (h : TokNs ds de ds' de' ρ N R T T') : partsN ds de ds' de' ρ N R (parse ds de T) (parse ds' de' T') := by
   rw [parse_eq_stackParse, parse_eq_stackParse]
-  have := runM_n ds de ds' de' ρ N hρ hds hde hds' hde' T T' h ([], []) ([], []) ⟨trivial, trivial⟩
+  have := runM_n ds de ds' de' ρ N R hρ hds hde hds' hde' T T' h ([], []) ([], []) ⟨trivial, trivial⟩
   simp only [stackParse]
   simp only [runM] at this
   generalize List.foldl (stackStep ds de) ([], []) T = s1 at this ⊢
   generalize List.foldl (stackStep ds' de') ([], []) T' = s2 at this ⊢
   obtain ⟨S, r⟩ := s1
   obtain ⟨S', r'⟩ := s2
-  exact finishStack_n ds de ds' de' ρ N S S' [] [] r r' this.1 trivial this.2
+  exact finishStack_n ds de ds' de' ρ N R S S' [] [] r r' this.1 trivial this.2
 
 end
 
